@@ -291,6 +291,11 @@ func (this *partition) proposeAddNode(ctx context.Context, nodeId uint64) error 
 }
 
 func (this *partition) addNode(nodeId uint64) {
+	if this.isOnNode(nodeId) {
+		// Already a host. Adding it again would list the node twice and reload
+		// (and thereby lose) the raft group that is already running here.
+		return
+	}
 	this.meta.NodeIds = append(this.meta.NodeIds, nodeId)
 
 	if nodeId == this.raftTransport.NodeId() {
